@@ -92,6 +92,21 @@ var mlAtoms = []alphaTok{
 	{"SP", " "},
 }
 
+// family: the spellings of one lexeme kind share a finding key
+func (k mlKind) family() string {
+	switch {
+	case strings.HasPrefix(k.Name, "pi"):
+		return "processing-instruction"
+	case strings.HasPrefix(k.Name, "heredoc"):
+		return "heredoc"
+	case strings.HasPrefix(k.Name, "inline-html"):
+		return "inline-html"
+	case k.Name == "doc-comment":
+		return "block-comment"
+	}
+	return k.Name
+}
+
 func (k mlKind) atoms() []alphaTok {
 	a := append([]alphaTok{}, mlAtoms...)
 	for _, e := range k.Extra {
@@ -327,6 +342,17 @@ func mlLocKey(c mlLocCase, verdict string) (string, mlLocCase) {
 			}
 		}
 	}
+	// a CRLF that fails like a plain LF is the same defect: name it LF
+	for i, a := range cur.Body {
+		if a == 2 {
+			cand := cur
+			cand.Body = append([]int{}, cur.Body...)
+			cand.Body[i] = 1
+			if v, _, _, _ := cand.eval(); v == verdict {
+				cur = cand
+			}
+		}
+	}
 	k := mlKindBy(cur.Lexeme)
 	tag := ""
 	if cur.Setup == "html" {
@@ -338,7 +364,7 @@ func mlLocKey(c mlLocCase, verdict string) (string, mlLocCase) {
 			tag = " [" + cur.Setup + " only]"
 		}
 	}
-	return fmt.Sprintf("location after %s with body [%s]: %s%s", cur.Lexeme, mlNames(k.atoms(), cur.Body), verdict, tag), cur
+	return fmt.Sprintf("location after %s with body [%s]: %s%s", k.family(), mlNames(k.atoms(), cur.Body), verdict, tag), cur
 }
 
 func mlLocWorker(w *pool.W, sh mlShard, s *mlSetup, k *mlKind) {
